@@ -124,7 +124,7 @@ func splitTags(s string) ([]string, string) {
 }
 
 var clauseKinds = map[string]bool{"requires": true, "ensures": true, "invariant": true, "modifies": true, "sets": true,
-	"havoc": true, "decreases": true, "flags": true, "results": true, "assert": true, "cases": true}
+	"havoc": true, "decreases": true, "flags": true, "results": true, "assert": true, "cases": true, "exempt": true}
 
 // splitTopLevelArgs splits "a S1, b S2" respecting parentheses.
 func splitTop(s string, sep byte) []string {
@@ -487,6 +487,16 @@ func parseClause(c *Clause) error {
 		for _, n := range splitTop(text, ',') {
 			c.Names = append(c.Names, n)
 		}
+		return nil
+	case "exempt":
+		// exempt <schema clause label>: <reason>   (the schema clause of that label is not claimed for this function)
+		i := strings.Index(text, ":")
+		if i < 0 {
+			return fail(fmt.Errorf("exempt label: reason"))
+		}
+		c.Names = []string{strings.TrimSpace(text[:i])}
+		c.Label = strings.TrimSpace(text[:i])
+		c.Text = strings.TrimSpace(text[i+1:])
 		return nil
 	case "cases":
 		// cases <param> : "lit" | "lit" | ...   (the function is verified once per literal)
